@@ -696,7 +696,7 @@ def _execute(trace, res, prop, program, meta, ops, solver, fs):
                 res.violate("C05", sig, det, oi)
             bad = _nonfinite_supplied(live.net, mode)
             for b in bad:
-                res.violate("C05", "C05/returned-nonfinite:%s" % b, "", oi)
+                res.violate("C05", "C05/returned-nonfinite:%s@%s" % (b, mode), "", oi)
             res.oracle_checks += 1
             if live.prev_failed:
                 res.count("probe:success-after-failure")
@@ -758,7 +758,10 @@ def _execute(trace, res, prop, program, meta, ops, solver, fs):
                         res.violate("C12", "C12/heat-from-stored-differs:%s" % _strip(x), x, oi)
                     res.count("probe:heat-from-stored-compared")
                 elif tout != outcome:
-                    res.violate("C12", "C12/heat-from-stored-differs:outcome", "%s vs twin %s" % (outcome, tout), oi)
+                    circ = ""
+                    if opts_model.get("nonlinear_method") == "automatic" and opts_model.get("alpha") != 1:
+                        circ = "@adaptive-damping-with-alpha<1"
+                    res.violate("C12", "C12/heat-from-stored-differs:outcome%s" % circ, "%s vs twin %s" % (outcome, tout), oi)
             else:
                 twin, tout = twin_run(kw)
                 where = "after(%s)" % ("fail" if live.prev_failed else ("restart" if restarted else "any"))
@@ -933,6 +936,10 @@ def _check_user_layer(res, net, user_model, hyd_flag_model, oi, site):
 # restart (C15)
 # ------------------------------------------------------------------------------------------
 KEY = "verif-key"
+# attributes of pandapower helper objects that are caches rebuilt by init_all() at the start of every
+# time-series run (not part of what a user stored)
+OBJECT_VOLATILE = {"OutputWriter": ("output_list", "time_step_lookup", "np_results", "output", "cur_realtime",
+                                    "time_step", "time_steps")}
 
 
 def _save_load(net, path, fs, fault, eno, n):
@@ -1024,6 +1031,15 @@ def compare_loaded(orig, loaded, path):
                         out.append("%s.%s" % (k, c))
                 elif va.dtype == object:
                     for x, y in zip(va, vb):
+                        if hasattr(x, "__dict__") and hasattr(y, "__dict__") and type(x).__name__ == type(y).__name__:
+                            dx, dy = vars(x), vars(y)
+                            skip = OBJECT_VOLATILE.get(type(x).__name__, ())
+                            bad = sorted(a_ for a_ in set(dx) | set(dy) if a_ not in skip and
+                                         snap.canon_deep(dx.get(a_, "<absent>")) != snap.canon_deep(dy.get(a_, "<absent>")))
+                            if bad:
+                                out.append("%s.%s:%s.%s" % (k, c, type(x).__name__, bad[0]))
+                                break
+                            continue
                         if snap.canon_deep(x) != snap.canon_deep(y):
                             kind = ":none-vs-nan" if (x is None or y is None) else ""
                             out.append("%s.%s%s" % (k, c, kind))
@@ -1122,6 +1138,9 @@ def _run_replicas(res, replicas, op, live, outcome, mode, solver, oi):
         for k in ("iter",) + STAGE_ITER:
             kw.pop(k, None)
         kw.pop("alpha", None)   # full Newton steps: quadratic convergence, error << comparison tolerance
+        # adaptive damping decides on error comparisons that round-off can flip, so "converged within
+        # the budget" is not a well-defined function of the engine there: replicas use plain Newton
+        kw.pop("nonlinear_method", None)
         kw["iter"] = 100
         kw.update(s.overrides)
         cc = kw.get("check_connectivity", s.net.get("user_pf_options", {}).get("check_connectivity", True))
@@ -1131,13 +1150,19 @@ def _run_replicas(res, replicas, op, live, outcome, mode, solver, oi):
         if op.get("topo") or s.topology_dirty or not getattr(s, "primed", False):
             # internal data may only be reused while the set of active elements is unchanged
             kw["reuse_internal_data"] = False
-        out, _ = _run_pipeflow(s.net, kw, solver, [])
+        out, exc_ = _run_pipeflow(s.net, kw, solver, [])
+        if out.startswith("exc:"):
+            out = "%s:%s" % (out, _slug(exc_)[:28])
         s.primed = out == "ok"
         s.topology_dirty = False
         if kw.get("reuse_internal_data") and s.overrides.get("reuse_internal_data"):
             res.count("probe:reuse-path-taken")
         outs.append(out)
     ref = replicas[0]
+    if outs[0].startswith("exc:"):
+        # the reference itself left with a foreign exception: that is C05's finding, nothing to compare
+        res.count("probe:replica-reference-foreign-exception")
+        return
     for s, out in zip(replicas[1:], outs[1:]):
         if out != outs[0]:
             res.violate("C07", "C07/verdict-differs:%s-vs-%s:%s-vs-%s@%s" % (ref.name, s.name, outs[0], out, mode), "%s vs %s" % (outs[0], out), oi)
